@@ -95,8 +95,12 @@ async def _case(loop, data, login_first, end_kind):
 
 
 def _job(args):
+    # one case needs well under a second of real time; a server that stops yielding must not stall the check
+    os.environ.setdefault("VERIF_WALL_LIMIT", "25")
     try:
         return simnet.run(_case, *args)
+    except simnet.WallClockExceeded as e:
+        return "SERVER-STARVED-THE-LOOP %s" % e
     except BaseException as e:  # noqa
         return "HARNESS-ERROR %s: %s" % (type(e).__name__, e)
 
@@ -141,6 +145,9 @@ def run(ctx, compare=True):
         res.cases += 1
         res.count("server_garbage_" + fam)
         inp = {"kind": "control-bytes", "bytes": data[:200].hex() + ("..(%d bytes)" % len(data) if len(data) > 200 else ""), "full_len": len(data), "login_first": job[1], "end": job[2]}
+        if isinstance(o, str) and o.startswith("SERVER-STARVED-THE-LOOP"):
+            res.oracle_failures.append({"input": inp, "what": "after this input the server never yielded to the event loop again: every session (the bystander too) is frozen, nothing is released (%s)" % o, "signature": "C19:server:event-loop-starved"})
+            continue
         if isinstance(o, str):
             res.disagreements.append({"correspondence": "C19 server harness", "input": inp, "impl": o})
             continue
